@@ -205,6 +205,25 @@ pub fn run_c06(r: &mut Report) {
             }
         }
     }
+    // the clock is read at every verification: a layout that expires between two calls is rejected by the later one,
+    // whatever the earlier calls in this process returned (a failed one, a successful one)
+    for earlier in ["failed-verification", "successful-verification", "both"] {
+        use chrono::{TimeZone, Utc};
+        let (lay0, d) = simple(&[&o1], 30);
+        let mut l: LayoutMetadata = match lay0.metadata.clone() { MetadataWrapper::Layout(l) => l, _ => unreachable!() };
+        let t = Utc.timestamp_opt(Utc::now().timestamp() + 2, 0).unwrap();
+        l.expires = t;
+        let mb = signed_layout(&l, &[&o1]);
+        let other = key(5);
+        let mut before = vec![];
+        if earlier != "successful-verification" { before.push(no_panic(|| in_toto_verify(&mb, owner_keys(&[&other]), d.path().to_str().unwrap(), None)).map(|v| v.is_ok())); }
+        if earlier != "failed-verification" { before.push(no_panic(|| in_toto_verify(&mb, owner_keys(&[&o1]), d.path().to_str().unwrap(), None)).map(|v| v.is_ok())); }
+        let in_time = Utc::now() < t;
+        while Utc::now() <= t + chrono::Duration::milliseconds(200) { std::thread::sleep(std::time::Duration::from_millis(100)); }
+        let res = no_panic(|| in_toto_verify(&mb, owner_keys(&[&o1]), d.path().to_str().unwrap(), None));
+        r.case("expiry-after-earlier-calls", json!({"earlier_calls": earlier, "earlier_results_ok": format!("{:?}", before), "earlier_calls_before_expiry": in_time}), "Err (expired meanwhile)",
+               match &res { Ok(v) => verdict(v), Err(p) => format!("panic: {}", p) }, matches!(&res, Ok(v) if v.is_err()));
+    }
     // offset notation: an instant in the past written with a +14:00 offset whose local date is in the future
     let past = chrono::Utc::now() - chrono::Duration::hours(1);
     let with_offset = past.with_timezone(&chrono::FixedOffset::east_opt(14 * 3600).unwrap()).to_rfc3339();
@@ -301,6 +320,28 @@ pub fn run_c04(r: &mut Report) {
         let ok = match &res { Ok(v) => v.is_ok() == c.expect && (v.is_err() || v.as_ref().unwrap() == &c.mb.metadata), Err(_) => false };
         r.case(c.id, json!({"threshold": c.t, "keys": c.keys.len(), "signatures": c.mb.signatures.len()}),
                if c.expect { "Ok(metadata)" } else { "Err" }, format!("{:?}", res.map(|v| v.map(|_| "Ok").map_err(|e| e.to_string()))), ok);
+    }
+    // key material x declared scheme: a key is checked under its DECLARED scheme; a signature made under the scheme that fits the
+    // material, re-attributed to a key that declares another scheme, is not a valid signature of that key
+    {
+        use in_toto::crypto::SignatureScheme as S;
+        let mats: Vec<(&str, &str, &str, S)> = vec![("ed25519", "ed25519/ed25519-1.spki.der", "ed25519/ed25519-1.pk8.der", S::Ed25519),
+            ("rsa", "rsa/rsa-2048.spki.der", "rsa/rsa-2048.pk8.der", S::RsaSsaPssSha256), ("rsa/sha512", "rsa/rsa-2048.spki.der", "rsa/rsa-2048.pk8.der", S::RsaSsaPssSha512),
+            ("ecdsa", "ecdsa/ec.spki.der", "ecdsa/ec.pk8.der", S::EcdsaP256Sha256)];
+        for (mname, spki, pk8, real) in &mats {
+            let signer = match std::fs::read(format!("/repo/tests/{}", pk8)).ok().and_then(|d| PrivateKey::from_pkcs8(&d, real.clone()).ok()) { Some(k) => k, None => continue };
+            let genuine = signed_link(&l, &[&signer]);
+            let gsig = serde_json::to_value(&genuine.signatures[0]).unwrap();
+            for declared in [S::Ed25519, S::RsaSsaPssSha256, S::RsaSsaPssSha512, S::EcdsaP256Sha256] {
+                let pk = match std::fs::read(format!("/repo/tests/{}", spki)).ok().and_then(|d| PublicKey::from_spki(&d, declared.clone()).ok()) { Some(k) => k, None => continue };
+                let mut m = genuine.clone();
+                m.signatures = vec![serde_json::from_value(json!({"keyid": serde_json::to_value(pk.key_id()).unwrap(), "sig": gsig["sig"]})).unwrap()];
+                let expect = declared == *real;
+                let res = no_panic(|| m.verify(1, [&pk]));
+                r.case("declared-scheme-decides", json!({"material": mname, "signed_under": format!("{:?}", real), "key_declares": format!("{:?}", declared)}), if expect { "Ok" } else { "Err" },
+                       format!("{:?}", res.as_ref().map(|v| v.as_ref().map(|_| "Ok").map_err(|e| e.to_string()))), matches!(&res, Ok(v) if v.is_ok() == expect));
+            }
+        }
     }
 }
 
